@@ -275,6 +275,13 @@ def bounded(tier, seed):
         col.add({**sub.violations[0], "sig": "native::coherence::parameter_dependent_bijector"} if sub.violations else None)
     except Exception as e:
         col.add({"sig": f"native::coherence::exception::{type(e).__name__}", "what": str(e)[:200], "input": {"scenario": "parameter-dependent default bijector"}})
+    try:  # a rejected proposal hands the SAME state object to the next kernel (eager execution): no leftovers of the earlier block's proposal
+        from rtc.c03 import same_state_object_case
+        sub = util.Collector()
+        same_state_object_case(sub)
+        col.add({**sub.violations[0], "sig": "native::coherence::leftover_of_earlier_call"} if sub.violations else None)
+    except Exception as e:
+        col.add({"sig": f"native::coherence::exception::{type(e).__name__}", "what": str(e)[:200], "input": {"scenario": "two update_state calls on one state object"}})
     try:
         weak_var_with_dist_case(col, seed + 4)
     except Exception as e:
@@ -293,7 +300,7 @@ def bounded(tier, seed):
         "rule": (f"BOUNDED: Liesel model (mu, log_sigma, derived sigma=exp(log_sigma), leaf pred=2mu+1, 5 observations) with kernel sequences RW(mu) + "
                  f"{{Gibbs, NUTS, IWLS}}(log_sigma), auto_update on and off, {n} jitted iterations each: after every single-kernel transition and every iteration the stored sigma, pred, "
                  "log-lik, log-prior, log-prob are compared with closed-form recomputation from the stored parameters (float64), and the other block must be bitwise "
-                 f"unchanged; same blockwise check on a dict model with RW + HMC; a model whose likelihood sits on a weak variable with a distribution (value path deeper than parameter path, single-key positions); a model built with the deprecated GraphBuilder.transform (a calculation directly on a value node) sampled with variable-name position keys; two order-sensitive deterministic Gibbs kernels with "
+                 f"unchanged; same blockwise check on a dict model with RW + HMC; a model whose likelihood sits on a weak variable with a distribution (value path deeper than parameter path, single-key positions); a model built with the deprecated GraphBuilder.transform (a calculation directly on a value node) sampled with variable-name position keys; two update_state calls with different keys on one state object; two order-sensitive deterministic Gibbs kernels with "
                  f"identifiers whose alphabetical order differs from the configured order (bare KernelSequence and through EngineBuilder). seed={seed}"),
         "samples": [{"auto_update": False, "kernels": ["RW(mu)", "Gibbs(log_sigma)"]}],
         "exhaustive": False, "violations": col.violations,
